@@ -56,6 +56,7 @@ type Exec struct {
 	inlineDepth   int
 	sweepSafe     bool // generate safety obligations
 	closureByTerm map[string]*closureRec
+	pend          []*pendingOb
 }
 
 type closureRec struct {
@@ -202,7 +203,6 @@ type pendingOb struct {
 	cover bool
 }
 
-var pendings = map[*Exec][]*pendingOb{}
 
 func (ex *Exec) oblige(kind, detail, goal, reach, human string, pos token.Pos, props []string) {
 	name := fmt.Sprintf("%s/%s", shortName(canonName(ex.top)), kind)
@@ -215,21 +215,21 @@ func (ex *Exec) oblige(kind, detail, goal, reach, human string, pos token.Pos, p
 	}
 	ob := &Obligation{Name: name, Func: shortName(canonName(ex.top)), Kind: kind, Goal: human, Pos: posOf(ex.P, pos), Props: props}
 	ex.obs = append(ex.obs, ob)
-	pendings[ex] = append(pendings[ex], &pendingOb{ob: ob, idx: len(ex.body), goal: and(reach, not(goal))})
+	ex.pend = append(ex.pend, &pendingOb{ob: ob, idx: len(ex.body), goal: and(reach, not(goal))})
 }
 
 func (ex *Exec) cover(detail, cond, human string, pos token.Pos) {
 	name := fmt.Sprintf("%s/cover/%s", shortName(canonName(ex.top)), detail)
 	ob := &Obligation{Name: name, Func: shortName(canonName(ex.top)), Kind: "cover", Goal: human, Pos: posOf(ex.P, pos), ExpectSat: true}
 	ex.obs = append(ex.obs, ob)
-	pendings[ex] = append(pendings[ex], &pendingOb{ob: ob, idx: len(ex.body), goal: cond, cover: true})
+	ex.pend = append(ex.pend, &pendingOb{ob: ob, idx: len(ex.body), goal: cond, cover: true})
 }
 
 func (ex *Exec) finish() {
-	for _, p := range pendings[ex] {
+	for _, p := range ex.pend {
 		p.ob.Script = ex.scriptFor(p.idx, p.goal)
 	}
-	delete(pendings, ex)
+	ex.pend = nil
 }
 
 func (ex *Exec) failOb(kind, detail, msg string, pos token.Pos) {
